@@ -53,7 +53,7 @@ def _norm_diag(text):
 
 def signature(vclass, detail):
     tc = detail.get("toolchain", "")
-    if vclass in ("NOT_SELF_CONTAINED",):
+    if vclass in ("NOT_SELF_CONTAINED", "NOT_MULTI_TU_SAFE"):
         return "%s|%s" % (vclass, _norm_diag(detail["single"]["diag"]))
     if vclass in ("MULTI_REJECTS",):
         return "%s|%s" % (vclass, _norm_diag(detail["multi"]["diag"]))
@@ -183,7 +183,7 @@ def evaluate_faulty(ctx, fplan, twin_res, twin_data, want_events=False):
     if v == "HARNESS":
         rec["harness_error"] = detail
         return rec
-    if v in ("NOT_SELF_CONTAINED", "RESULT_MISMATCH"):
+    if v in ("NOT_SELF_CONTAINED", "RESULT_MISMATCH", "NOT_MULTI_TU_SAFE"):
         if unh:
             c = "SILENT_FAULT"
         elif res["delivered"]:
